@@ -13,6 +13,7 @@ import random
 import shutil
 import subprocess
 
+from sim.runner import H
 from sim import child, gen, progtree
 
 ID = 'C15'
@@ -209,7 +210,7 @@ def check_case(case):
            'gaps': r0.get('gaps', [])}
     v = []
     if 'xproc' in variant:
-        res = xproc_run(case, variant['xproc'], tag=str(abs(hash(case['isa_text'])) % 100000))
+        res = xproc_run(case, variant['xproc'], tag=str(abs(H(case['isa_text'])) % 100000))
         obs['xproc'] = [(hs, o['exit'], o['failed']) for hs, o in res]
         for hs, o in res:
             for c in compare(res[0][1], o, case):
@@ -334,7 +335,7 @@ def explore(subseed, cfg):
         ambiguous = True
         pr['ambiguous_include_present'] = 1
     ndirs = len(case.get('inc_dirs', progtree.include_dirs(main)))
-    wdig = hash((case['isa_text'], str(progtree.split_files(main)))) & 0xFFFFFFFF
+    wdig = H((case['isa_text'], str(progtree.split_files(main)))) & 0xFFFFFFFF
 
     r0, o0 = run_variant(case, {})
     out['runs'] += 1
@@ -371,7 +372,7 @@ def explore(subseed, cfg):
         if variant.get('dups'):
             pr['duplicate_dir_supplied'] = pr.get('duplicate_dir_supplied', 0) + 1
         if len(variant) > 1 or 'set_seed' not in variant or nontrivial_sets:
-            out['distinct'].add(hash((wdig, str(sorted(variant.items(), key=str)))) & 0xFFFFFFFFFFFF)
+            out['distinct'].add(H((wdig, str(sorted(variant.items(), key=str)))) & 0xFFFFFFFFFFFF)
     out['sites'] = set()
     for dim in ['set', 'inc', 'cwd', 'env', 'enc', 'epoch', 'pre']:
         if dim == 'inc' and not ndirs:
@@ -390,7 +391,7 @@ def explore(subseed, cfg):
             out['evaluations'] += 1
             pr['xproc_worlds'] = pr.get('xproc_worlds', 0) + 1
             pr['xproc_runs'] = pr.get('xproc_runs', 0) + len(hs)
-            out['distinct'].add(hash((wdig, 'xproc', tuple(hs))) & 0xFFFFFFFFFFFF)
+            out['distinct'].add(H((wdig, 'xproc', tuple(hs))) & 0xFFFFFFFFFFFF)
             for vv in res['violations']:
                 out['violations'].append({'case': c, 'class': vv, 'group': 'xproc'})
         except Exception as e:
